@@ -158,6 +158,16 @@ def systematic_cases() -> list[dict[str, Any]]:
                 c["obj"]["redirect"] = {kind: {"n": n, "last": last, "status": (301, 302, 303, 307, 308)[c["id"] % 5], "secret": f"{CAN_RKEY}={CAN_RVAL}"}}
 
             add([f"redirect_{kind}_{n}_{last}"], fn, modes=modes, paths=paths)
+    # a redirect that is only served after the connection was dropped k times (reconnect / retry paths of the client)
+    for k in (1, 2, 3):
+        for dm in ("fin", True):
+            for last in ("forbidden_origin", "forbidden_path", "next"):
+
+                def fn1b(c: dict[str, Any], m: str, p: str, k: int = k, dm: Any = dm, last: str = last) -> None:
+                    kind = "HEAD" if m == "head" else ("GET" if p == "single" else "RANGE")
+                    c["obj"]["redirect"] = {kind: {"after_drops": k, "drop_mode": dm, "n": 1, "last": last, "secret": f"{CAN_RKEY}={CAN_RVAL}"}}
+
+                add([f"redirect_after_{k}_drops_{'fin' if dm == 'fin' else 'rst'}_{last}"], fn1b)
     for mr in (0, 1, 5):
         for n in (mr, mr + 1):
             if n == 0:
